@@ -4,13 +4,13 @@ kani units (quick / thorough), evidence level and the technique string."""
 HTOK_T = 'contract-based deductive verification (Verus): simulation of the WHATWG tokenizer machine by the verbatim-extracted Tokenizer code'
 
 PROPS = {
-    'C01': dict(verus=['u_small', 'u_htok'], level='proof', technique=HTOK_T),
+    'C01': dict(verus=['u_small', 'u_htok', 'u_hcr'], level='proof', technique=HTOK_T),
     'C02': dict(verus=['u_tagsets', 'u_foreign', 'u_fmt'], level='proof', technique='contract-based deductive verification (Verus): tag-set predicates and foreign-content tables checked for every name against the lists of the standard'),
-    'C03': dict(verus=['u_small', 'u_bq', 'u_htok'], level='proof', technique=HTOK_T),
-    'C04': dict(verus=['u_small', 'u_bq', 'u_htok'], level='proof', technique=HTOK_T),
+    'C03': dict(verus=['u_small', 'u_bq', 'u_htok', 'u_hcr'], level='proof', technique=HTOK_T),
+    'C04': dict(verus=['u_small', 'u_bq', 'u_htok', 'u_hcr', 'u_xtok', 'u_qname', 'u_utf8'], level='proof', technique=HTOK_T),
     'C07': dict(verus=['u_hser'], level='proof', technique='contract-based deductive verification (Verus) of the verbatim-extracted HtmlSerializer escaping / raw-text logic against a spec escape function with proved reversibility and confinement lemmas'),
     'C08': dict(verus=['u_htok'], level='proof', technique=HTOK_T),
-    'C09': dict(verus=['u_htok'], level='proof', technique=HTOK_T),
+    'C09': dict(verus=['u_htok', 'u_hcr'], level='proof', technique=HTOK_T),
     'C10': dict(verus=['u_utf8'], level='proof', technique='contract-based deductive verification (Verus) of the verbatim-extracted incremental UTF-8 decoder (utf8_decode.rs, Utf8LossyDecoder::process/finish) against a byte-level maximal-subpart specification of lossy decoding; chunking independence by a proved induction over the per-call contract'),
     'C11': dict(verus=['u_tendril'], level='proof', technique='contract-based deductive verification (Verus) of the verbatim-extracted Tendril operations that sit above the raw-pointer representation layer, against the byte string each tendril stands for, over an ASSUMED model of that layer'),
     'C13': dict(
@@ -23,6 +23,6 @@ PROPS = {
     'C15': dict(verus=['u_small', 'u_bq', 'u_xtok'], kani_thorough=['b_xtok'], level='proof', technique='contract-based deductive verification (Verus) of the verbatim-extracted XmlTokenizer input primitives and state machine against the normalised pending stream (stream-level contracts, fast-path loop invariant, call-site set preconditions)'),
     'C16': dict(verus=['u_qname', 'u_xns'], level='proof', technique='contract-based deductive verification (Verus) of the verbatim-extracted XML qualified-name splitter, duplicate-attribute test and namespace handling of the tree builder (declaration rules, innermost-first scope search, resolution of element and attribute names, what is pushed for descendants and what is dropped) against a scope-resolution specification written from Namespaces in XML'),
     'C17': dict(verus=['u_xser'], kani_quick=['b_xrt'], level='proof', technique='contract-based deductive verification (Verus) of the verbatim-extracted XmlSerializer: output equals a spec escape function with proved reversibility/confinement lemmas; namespace-scope postconditions (every prefix of the element and its attributes bound by the declarations actually written; end_elem leaves enclosing scopes alone)'),
-    'C19': dict(verus=['u_enc'], kani_quick=['b_henc'], level='proof', technique='contract-based deductive verification (Verus) of the verbatim-extracted extract_a_character_encoding_from_a_meta_element against a transcription of the WHATWG algorithm; bounded sweep of the real tree builder for which elements raise an indicator'),
+    'C19': dict(verus=['u_enc', 'u_meta'], kani_quick=['b_henc'], level='proof', technique='contract-based deductive verification (Verus) of the verbatim-extracted extract_a_character_encoding_from_a_meta_element against a transcription of the WHATWG algorithm; bounded sweep of the real tree builder for which elements raise an indicator'),
     'C18': dict(verus=['u_trace'], level='proof', technique='contract-based deductive verification (Verus): trace_handles against a handle set generated from the struct definition'),
 }
